@@ -293,7 +293,9 @@ func (w *World) Exec(bin, dir string, plan *Plan, scratch string, extraEnv []str
 	defer cancel()
 	cmd := exec.CommandContext(ctx, bin, args...)
 	cmd.Dir = dir
-	env := w.Env(extraEnv...)
+	// a shell that has cd'ed into dir exports PWD, and os.Getwd prefers a valid $PWD over the resolved path: without
+	// it a checkout reached through a symlink would never be seen under its symlinked spelling
+	env := w.Env(append([]string{"PWD=" + dir}, extraEnv...)...)
 	var tracePath string
 	if plan != nil {
 		f, err := os.CreateTemp(scratch, "plan-*.json")
